@@ -5,3 +5,14 @@ pub use zkryptium::errors::Error;
 pub use zkryptium::keys::pair::KeyPair;
 pub use zkryptium::schemes::algorithms::BBSplus;
 pub use zkryptium::schemes::generics::{BlindSignature, Commitment, PoKSignature, Signature};
+
+/// Emits one `TRANSPORT key=value` line.  Under symbolic execution Kani's `println!` override
+/// discards the formatting, so this costs nothing there; under `cargo kani playback` (concrete
+/// counterexample, native run) the lines describe the counterexample for the real-build replay.
+#[macro_export]
+macro_rules! tp {
+    ($k:expr, $v:expr) => {
+        println!("TRANSPORT {}={:?}", $k, $v);
+    };
+}
+pub const QV: usize = bls12_381_plus::Q as usize;
